@@ -42,6 +42,12 @@ def volOutToJson (o : VolOut) : Json := Json.mkObj [
   ("frames", Json.arr (o.frames.map (fun (i, s) => Json.arr #[(i : Json), (s : Json)])).toArray),
   ("first", intsToJson [o.rowFirst, o.colFirst])]
 
+def getKind (j : Json) : Except String Kind := do
+  match j.getObjVal? "kind" with
+  | .ok (.str "image") => pure .image
+  | .ok (.str "seg") => pure .seg
+  | _ => throw "kind image|seg expected"
+
 def getStack (j : Json) : Except String Stack := do
   let iop ← getRatList j "iop"
   let ps ← getRatList j "ps"
@@ -73,14 +79,14 @@ def handlers : List (String × Handler) := [
     | _, _ => throw "d of 3 vectors and s of 3 expected"),
   ("getVolumeStack", fun j => do
     let st ← getStack j
-    let r := getVolumeStack st (← getInt j "rows") (← getInt j "cols") (← getBool j "allow_missing") (← getRequest j)
+    let r := getVolumeStack (← getKind j) st (← getInt j "rows") (← getInt j "cols") (← getBool j "allow_missing") (← getRequest j)
     pure (exceptToJson volOutToJson r)),
   ("tiledVolume", fun j => do
     let ios ← getRatList j "ios"
     let ps ← getRatList j "ps"
     match ios, ps with
     | [a, b, c, d, e, f], [p, q] =>
-      let r := tiledVolume (← getV3 j "origin") ⟨a, b, c⟩ ⟨d, e, f⟩ p q (← getOptRat j "sbs")
+      let r := tiledVolume (← getKind j) (← getV3 j "origin") ⟨a, b, c⟩ ⟨d, e, f⟩ p q (← getOptRat j "sbs")
         (← getInt j "rows") (← getInt j "cols") (← getRequest j)
       pure (exceptToJson volOutToJson r)
     | _, _ => throw "ios of 6 and ps of 2 expected"),
